@@ -30,6 +30,18 @@ Binding B: every distinct observation of a template that the model covers is
 turned into a sequence of small ints (string -> rank table) and validated by
 TLC against Order_Trace.tla: accepted iff it equals the model's EnumSorted
 prediction ("... all enumerate them in sorted order").
+
+Members that render alike (round 2): besides strings and mixed scalars the
+sets and maps are filled from the pools ALIKE - anonymous functions, objects
+that differ only in hidden members or share a _str_, sets / maps holding
+such values, streams, and strings mixed with functions.  Their texts are
+identical, so an order relation that compares texts ties on them and a
+stable host sort leaves them in host-set order (which follows the hash
+seed).  In the model these are the elements above OrderOps!AlikeBase; the
+table entry "relation" ("total" | "render") says with which relation the
+sorting sites sort, and is derived from the observations like the sites.
+Several batches share one process (Carrier) to keep the number of
+interpreter starts down.
 """
 import json
 import math
@@ -340,12 +352,6 @@ def templates():
         a(T(p + "-list-of-set", "println([idof(x) for x in list(S)]);", "aslist.set", "aslist.set", pool=p))
         a(T(p + "-spread-list-set", "println([idof(x) for x in [...S]]);", "spread.list.set", "spread.list.set", pool=p))
         a(T(p + "-spread-call-set", "println([idof(x) for x in f(...S)]);", "spread.call.set", "spread.call.set", pool=p))
-        a(T(p + "-destr-def-set", "def [a, b, c] = S; println([idof(a), idof(b), idof(c)]);", "destr.def.set",
-            "destr.def.set", pool=p))
-        a(T(p + "-destr-assign-set", "def a = 0; def b = 0; def c = 0; [a, b, c] = S; println([idof(a), idof(b), idof(c)]);",
-            "destr.assign.set", "destr.assign.set", pool=p))
-        a(T(p + "-destr-for-set-of-sets", "for [a, b, c] in [S] do println([idof(a), idof(b), idof(c)]); end;",
-            "destr.for.list", "destr.for.list", pool=p))
         a(T(p + "-for-map-keys", "for k in keys M do println(idof(k)); end;", "for.map.keys", "for.map", pool=p))
         a(T(p + "-for-map-values", "for v in values M do println(v); end;", "for.map.values", "for.map", pool=p))
         a(T(p + "-lcompr-map-keys", "println([idof(k) for k in keys M]);", "compr.map.keys", "compr.map.keys", pool=p))
@@ -363,6 +369,16 @@ def templates():
             "println(idof(min(list(S)))); println(idof(max(list(S)))); println([[e[0], idof(e[1])] for e in enumerate(S)]); "
             "println([idof(x) for x in List->filter(S, fn(y) TRUE)]);", None, pool=p))
         a(T(p + "-random-choice", "Random->set_seed(5); println([idof(Random->choice(S)) for i in range(6)]);", None, pool=p))
+        a(T(p + "-destr-assign-set", "def a = 0; def b = 0; def c = 0; [a, b, c] = S; println([idof(a), idof(b), idof(c)]);",
+            "destr.assign.set", "destr.assign.set", pool=p))
+        a(T(p + "-destr-for-set-of-sets", "for [a, b, c] in [S] do println([idof(a), idof(b), idof(c)]); end;",
+            "destr.for.list", "destr.for.list", pool=p))
+        # last: def [a, b, c] = S names anonymous functions a, b, c; from then on they no longer render alike
+        a(T(p + "-destr-def-set", "def [a, b, c] = S; println([idof(a), idof(b), idof(c)]);", "destr.def.set",
+            "destr.def.set", pool=p))
+        # def names an anonymous function; a member of a set / key of a map must still be found afterwards
+        a(T(p + "-keys-after-def", "def [a, b, c] = S; println([idof(k) for k in keys M]); println([a in S, b in S, c in S]); "
+            "for k in keys M do println(M[k]); end;", None, pool=p))
     # two members only (the smallest case)
     a(T("lambda-two-lcompr-set", "println([idof(x) for x in S]);", "compr.set", "compr.set", pool="lambda", n=2))
     a(T("hidden-two-for-set", "for x in S do println(idof(x)); end;", "for.set", "for.set", pool="hidden", n=2))
@@ -424,11 +440,60 @@ class Batch:
         else:
             for t in self.ts:
                 out.append(f"println(''); println('@@T {t.tid}');\ndo\n{t.body}\ncatch all println('@@CAUGHT');\nend;\n")
-            out.append("println(''); println('@@END');\n")
+            out.append(END_MARK)
         return "".join(out)
 
     def solo_of(self, t):
         return Batch(f"{self.bid}/{t.tid}", [t], self.pool, self.elems, self.orders, self.tokens, self.rankable, t.solo)
+
+
+END_MARK = "println(''); println('@@END');\n"
+
+
+class Carrier:
+    """Several batches run in one process, their scripts one after the other
+    (every batch defines its own F, S, M, L ... again; a top-level def may be
+    repeated).  Saves interpreter starts; a crash inside one section cuts off
+    the later ones, which are then re-run alone like within a batch."""
+
+    def __init__(self, bid, members):
+        self.bid = bid
+        self.members = members
+        self.solo = False
+        names = []
+        for m in members:
+            for on, _ in m.orders:
+                if on not in names:
+                    names.append(on)
+        self.orders = [(on, on) for on in names]
+
+    def script(self, oname):
+        out = [PRELUDE]
+        for m in self.members:
+            order = dict(m.orders).get(oname)
+            if order is None:
+                continue                     # a two-member batch has two construction orders only
+            text = m.script(order)
+            assert text.startswith(PRELUDE) and text.endswith(END_MARK)
+            out.append(text[len(PRELUDE):-len(END_MARK)])
+        out.append(END_MARK)
+        return "".join(out)
+
+
+def carriers(batches):
+    """group the batches into processes"""
+    alike = [b for b in batches if b.pool in ALIKE and not b.solo]
+    misc = [b for b in batches if not b.solo and (b.pool in MIXED or (b.pool == "str" and len(b.ts) == 1))]
+    units = [b for b in batches if b not in alike and b not in misc]
+    if len(alike) > 1:
+        units.append(Carrier("carrier-alike", alike))
+    else:
+        units += alike
+    if len(misc) > 1:
+        units.append(Carrier("carrier-misc", misc))
+    else:
+        units += misc
+    return units
 
 
 _TOTAL = {}
@@ -609,55 +674,76 @@ def split_sections(b, o):
     return res
 
 
+def _collect(units, results, obs):
+    """sort the sections of every run to their templates; -> {(tid, bid): batch} of the templates whose section
+    is missing in some run (cut off by a crash of an earlier section)"""
+    by_unit = {u.bid: u for u in units}
+    missing = {}
+    for (ubid, legacy), runs in results.items():
+        u = by_unit[ubid]
+        for b in (u.members if isinstance(u, Carrier) else [u]):
+            names = {on for on, _ in b.orders}
+            want = [t.tid for t in b.ts]
+            for rk, o in runs.items():
+                if rk[0] not in names:
+                    continue
+                secs = split_sections(b, o)
+                for tid in want:
+                    if tid in secs:
+                        obs.setdefault((tid, b.bid, legacy), {})[rk] = secs[tid]
+                    elif len(b.ts) == 1 and not isinstance(u, Carrier):
+                        # alone in its process and not even the marker: the script as a whole failed
+                        obs.setdefault((tid, b.bid, legacy), {})[rk] = (o[1], o[2], o[0])
+                    else:
+                        missing[(tid, b.bid)] = b
+    for (tid, bid) in missing:
+        for legacy in (False, True):
+            obs.pop((tid, bid, legacy), None)
+    return missing
+
+
 def observe(batches, seeds, legacy_seeds):
     """Run everything; -> {(tid, bid, legacy): {(order, seed): (text, err, rc)}},
-    {(tid, bid): batch}, processes"""
-    results, nproc = execute(batches, seeds, legacy_seeds)
-    by_bid = {b.bid: b for b in batches}
+    {(tid, bid): batch}, processes.  Templates hidden by a crash of an earlier
+    one are run again: first together with the others of their batch that
+    were cut off, what is still hidden after that alone."""
     obs = {}
     owner = {}
-    retry = {}
-    for (bid, legacy), runs in results.items():
-        b = by_bid[bid]
-        want = [t.tid for t in b.ts]
-        for rk, o in runs.items():
-            secs = split_sections(b, o)
-            for tid in want:
-                if tid in secs:
-                    obs.setdefault((tid, bid, legacy), {})[rk] = secs[tid]
-                else:
-                    retry[(tid, bid)] = True
-    # templates hidden by a crash of an earlier one: run them alone
-    if retry:
-        solos = []
-        for (tid, bid) in sorted(retry):
-            b = by_bid[bid]
-            t = [t for t in b.ts if t.tid == tid][0]
-            for legacy in (False, True):
-                obs.pop((tid, bid, legacy), None)
-            solos.append(b.solo_of(t))
-        r2, n2 = execute(solos, seeds, legacy_seeds)
-        nproc += n2
-        for sb in solos:
-            for legacy in (False, True):
-                for rk, o in r2.get((sb.bid, legacy), {}).items():
-                    sec = split_sections(sb, o).get(sb.ts[0].tid)
-                    if sec is None:                     # not even the marker: the script as a whole failed
-                        sec = (o[1], o[2], o[0])
-                    obs.setdefault((sb.ts[0].tid, sb.bid, legacy), {})[rk] = sec
-            owner[(sb.ts[0].tid, sb.bid)] = sb
-    for b in batches:
-        for t in b.ts:
-            if (t.tid, b.bid) not in retry:
-                owner[(t.tid, b.bid)] = b
-    return obs, owner, nproc, sorted(t for t, _ in retry)
+    nproc = 0
+    cut = set()
+    units = carriers(batches)
+    for rnd in (0, 1, 2):
+        results, n = execute(units, seeds, legacy_seeds)
+        nproc += n
+        missing = _collect(units, results, obs)
+        for u in units:
+            for b in (u.members if isinstance(u, Carrier) else [u]):
+                for t in b.ts:
+                    if (t.tid, b.bid) not in missing:
+                        owner[(t.tid, b.bid)] = b
+        if not missing:
+            break
+        cut |= {tid for tid, _ in missing}
+        if rnd == 2:
+            raise MachineryError(f"templates still cut off when run alone: {sorted(missing)[:5]}")
+        units = []
+        by_batch = {}
+        for (tid, bid), b in sorted(missing.items()):
+            by_batch.setdefault(bid, (b, []))
+        for bid, (b, ts) in by_batch.items():           # in the order of the batch (def renames functions: order matters)
+            ts += [t for t in b.ts if (t.tid, bid) in missing]
+        for bid, (b, ts) in sorted(by_batch.items()):
+            if rnd == 0 and len(ts) > 1:
+                units.append(Batch(bid + "/rest", ts, b.pool, b.elems, b.orders, b.tokens, b.rankable, False))
+            else:
+                units += [b.solo_of(t) for t in ts]
+    return obs, owner, nproc, sorted(cut)
 
 
 # ---------------------------------------------------------------- the model
-def tlc_programs(run):
+def tlc_programs(run, res):
     """Order.tla with the table the property states (every site sorted):
     OrderIndependence must hold; exports the program table."""
-    res = run_tlc("Order", "Order", coverage=True, timeout=1800)
     run.add_tlc(res, "Order: every site sorted with the total relation; OrderIndependence over all permutations of <= 4 of 5 "
                      "elements (2 plain, 3 that render alike)")
     progs = res.records("PROGS")
@@ -676,9 +762,13 @@ def tlc_predict(run, table, label):
     try:
         with open(path, "w") as f:
             json.dump(table, f)
-        res = run_tlc("Order", "Order_observed", env={"SITE_FILE": path}, coverage=True, timeout=1800)
+        res = run_tlc("Order", "Order_observed", env={"SITE_FILE": path}, coverage=False, timeout=1800)
     finally:
         shutil.rmtree(d, ignore_errors=True)
+    return vary_of(run, res, label)
+
+
+def vary_of(run, res, label):
     run.add_tlc(res, label)
     vary = {"plain": {}, "alike": {}}
     for v in res.records("VARY"):
@@ -785,13 +875,22 @@ def run(run):
     legacy_seeds = [0, 5] if quick else list(range(8))
     norders = 3 if quick else 6
     reps = 1 if quick else 3           # repetitions with other element subsets
-    progs = tlc_programs(run)
+    # the three model runs that do not depend on the observations go on beside the interpreter processes
+    tlc_pool = ThreadPoolExecutor(max_workers=3)
+    f_spec = tlc_pool.submit(run_tlc, "Order", "Order", coverage=True, timeout=1800, workers=8)
+    f_raw = tlc_pool.submit(run_tlc, "Order", "Order_allraw", coverage=False, timeout=1800, workers=4)
+    f_render = tlc_pool.submit(run_tlc, "Order", "Order_byrender", coverage=False, timeout=1800, workers=4)
     ts = templates()
+    batches = make_batches(ts, rng, norders, 6, reps)
+    try:
+        obs, owner, nproc, cut = observe(batches, seeds, legacy_seeds)
+        progs = tlc_programs(run, f_spec.result())
+        res_raw, res_render = f_raw.result(), f_render.result()
+    finally:
+        tlc_pool.shutdown(wait=True)
     for t in ts:
         if t.prog is not None and t.prog not in progs:
             raise MachineryError(f"template {t.tid} names program {t.prog} that OrderOps.tla does not define")
-    batches = make_batches(ts, rng, norders, 6, reps)
-    obs, owner, nproc, cut = observe(batches, seeds, legacy_seeds)
     varying, unsorted, ntrace = judge(run, obs, owner)
     flagged = set(varying) | set(unsorted)
 
@@ -830,17 +929,13 @@ def run(run):
             run.drift("model-prediction-differs", {"prog": pid, "members": cls, "model_says_can_vary": says,
                                                    "observed_varying": any(flags)})
     # which programs let a raw order through at all (every site raw)
-    allraw_t = {s: "raw" for s in sites}
-    allraw_t["relation"] = "total"
-    allraw = tlc_predict(run, allraw_t, "Order: every site raw; which programs let the order through")["plain"]
+    allraw = vary_of(run, res_raw, "Order: every site raw; which programs let the order through")["plain"]
     masked = sorted(p for p in progs if p not in allraw)
     for s in sites:
         if not any(s in progs[p]["sites"] for p in allraw):
             run.drift("site-never-observable", s)
     # which programs show the internal order when every site sorts, but by the renderings alone
-    byrender_t = {s: "sorted" for s in sites}
-    byrender_t["relation"] = "render"
-    byrender = tlc_predict(run, byrender_t, "Order: every site sorted by the renderings alone; where do ties leak")
+    byrender = vary_of(run, res_render, "Order: every site sorted by the renderings alone; where do ties leak")
     if byrender["plain"]:
         raise MachineryError("Order.tla: a collection without two alike members varies although every site sorts")
     tie_masked = sorted(p for p in progs if p not in byrender["alike"])
@@ -850,11 +945,19 @@ def run(run):
         if mixed_ranks(p) is None:
             run.drift("language-order-not-total-on-pool", p)
 
-    b0 = batches[0]
-    k0 = (b0.ts[0].tid, b0.bid, False)
-    run.sample({"script": b0.solo_of(b0.ts[0]).script(b0.orders[-1][1]),
+    k0 = next(k for k in sorted(obs) if k[2] is False and k[0] == batches[0].ts[0].tid)
+    b0 = owner[(k0[0], k0[1])]
+    t0 = [t for t in b0.ts if t.tid == k0[0]][0]
+    run.sample({"script": b0.solo_of(t0).script(b0.orders[-1][1]),
                 "observation": obs[k0][(b0.orders[-1][0], seeds[1])][0],
-                "as_ints": to_ints(b0, b0.ts[0], obs[k0][(b0.orders[-1][0], seeds[1])])})
+                "as_ints": to_ints(b0, t0, obs[k0][(b0.orders[-1][0], seeds[1])])})
+    ka = next((k for k in sorted(obs) if k[2] is False and k[0] == "lambda-lcompr-set"), None)
+    if ka:
+        ba = owner[(ka[0], ka[1])]
+        ta = [t for t in ba.ts if t.tid == ka[0]][0]
+        run.sample({"script_alike_members": ba.solo_of(ta).script(ba.orders[-1][1]).replace(PRELUDE, ""),
+                    "observation": obs[ka][(ba.orders[-1][0], seeds[1])][0],
+                    "as_ints": to_ints(ba, ta, obs[ka][(ba.orders[-1][0], seeds[1])])})
     run.sample({"site_table_observed": table, "assumed_raw_because_not_directly_observable": unobservable})
     run.sample({"programs_where_a_raw_order_is_masked": masked,
                 "programs_where_ties_between_alike_members_are_masked": tie_masked,
@@ -887,6 +990,10 @@ def run(run):
         "checked for identical outcomes only",
         "objects keep insertion order by design; only object(map) (an enumeration of a map) is in scope",
         "random numbers: only set_seed-seeded sequences are compared (the statement fixes the random seed)",
+        "members that render alike: the expected order is the creation order of functions and streams (they are "
+        "created in rank order before the set is built, in every construction order) and the order of the hidden "
+        "member for objects; the oracle proper is that all runs agree",
+        "an object whose _str_ imitates the rendering of a value of another type is not generated",
     ]
 
 
